@@ -91,6 +91,7 @@ def call_spec(funcs=tuple(FUNCS), coefs=None, max_deg=5, n_max=6, max_terms=7, s
                 # labelled kinds: install another (documented) label -> integer mapping with set_mapping first
                 "remap": gen.pick((False, 3), (True, 1)) if kind in gen.LABELLED_KINDS else st.just(False),
                 "reuse": gen.pick((False, 4), (True, 1)) if kind in gen.LABELLED_KINDS else st.just(False),
+                "stale_first": st.booleans(),
                 "seed": seeds,
                 # how an explicit schedule is handed over: the documented "iterable of floats" as a list of floats, with
                 # integral temperatures as python ints, as a tuple, a numpy array, a generator or Fractions
@@ -149,6 +150,16 @@ def prepare(qv, spec):
             model.clear()
             for k, v in terms:
                 model[tuple(k)] += v
+        elif spec.get("stale_first") and spec.get("stale"):
+            # the cancelled variables enter first, so they hold the *lowest* integers of the mapping
+            model = gen.cls_of(qv, kind)()
+            for k in spec["stale"]:
+                model[tuple(k)] += 1
+            for k, v in terms:
+                model[tuple(k)] += v
+            for k in spec["stale"]:
+                model[tuple(k)] -= 1
+            spec = dict(spec, stale=[])
         else:
             model = gen.build(qv, kind, terms)
         for k in spec.get("stale") or []:
